@@ -154,6 +154,12 @@ def decorate(text: str, rng: random.Random, ws=None) -> list[str]:
     out.append("".join(c.lower() if rng.random() < 0.5 else c for c in text))
     out.append(rng.choice(ws).join(text.lower()))
     out.append("".join(c + (rng.choice(ws) if rng.random() < 0.3 else "") for c in text.swapcase()))
+    # heavy padding: fixed-width records, pasted blocks (the amount of whitespace never matters)
+    n = rng.choice([40, 64, 65, 100, 128, 129, 300, 5000])
+    out.append(text.ljust(n))
+    out.append(text.rjust(n))
+    out.append((w * (n // max(1, len(text)) + 1)).join(text))
+    out.append("\n" * n + text + "\t" * n)
     return out
 
 
